@@ -350,11 +350,16 @@ def replay_glue(d):
     """Real _differentialEquation against the independent numeric reference, at the counterexample's state and (for SRP
     configurations, whose visible-fraction provider is real in a replay) at its sunlit / umbra variants."""
     last = None
-    for X in [d["state"]] + list(d.get("alt_states", [])):
-        bad, detail = _replay_glue_one(d, np.array(X, dtype=float))
-        if bad:
-            return True, detail
-        last = detail
+    # the obligations hold for every elapsed time and SRP coefficient inside the bounds, so the replay also evaluates the
+    # counterexample's configuration late in the span and with a full SRP coefficient (a stale epoch is invisible at the tiny t / zero k a model may pick)
+    for tt, kk in ((d["t"], d["k"]), (float(T_HI), d["k"]), (float(T_HI), 1.0)):
+        dd = dict(d, t=tt, k=kk)
+        for X in [d["state"]] + list(d.get("alt_states", [])):
+            bad, detail = _replay_glue_one(dd, np.array(X, dtype=float))
+            if bad:
+                detail["t"] = tt
+                return True, detail
+            last = detail
     return False, last
 
 
@@ -1320,6 +1325,12 @@ def _all_subsets():
     return out
 
 
+def _o9_sunfrac_edge(rep):
+    from harness import c14
+
+    c14.o5b_sunfrac_edge(rep)
+
+
 def obligations(tier):
     obs = []
     for name, (sets, Ks, flags) in _GLUE_QUICK.items():
@@ -1333,6 +1344,7 @@ def obligations(tier):
         Ob("O6b", o6b_cheb, "Chebyshev sub-interval selection, time scaling and series evaluation", 240),
         Ob("O7", o7_constants, "physical constants equal their documented values; thirdBodyFactory maps names to bodies", 60),
         Ob("O8", o8_twobody((1, 2)), "TwoBody derivative == -mu r/|r|^3, batch layout", 60),
+        Ob("O9", _o9_sunfrac_edge, "visible-Sun fraction (the SRP scale factor) continuous at the umbra edge (shared with C14-O5b)", 300),
     ]
     if tier == "thorough":
         subsets = _all_subsets()
